@@ -195,8 +195,67 @@ class FaultyCacheDefaultExists(Cache):
         return f"FaultyCacheDefaultExists({self.name})"
 
 
+class FaultyMemoryCache(MemoryCache):
+    """A backend built ON labrea's MemoryCache: get() and set() are inherited, exists() answers from an index of its
+    own (a second tier / a listing that can be stale).  Same scripted faults; 'forget' evicts the entry from the
+    inherited store while the index keeps listing it, so a later exists() says True and the inherited get() has to
+    report the miss."""
+
+    def __init__(self, name):
+        super().__init__()
+        self.name = name
+        self.index = set()
+
+    def _fault(self, method):
+        w = rt.CUR
+        return None if w is None else w.backend_fault(self.name, method)
+
+    def _evict(self, fp):
+        store = getattr(self, "_cache", None)  # (MemoryCache's own dict; private, so tolerate its absence)
+        if isinstance(store, dict):
+            store.pop(fp, None)
+        else:
+            self.index.discard(fp)
+
+    def get(self, evaluatable, options):
+        f = self._fault("get")
+        if f == "fail-get-chained":
+            try:
+                raise OSError("stored entry is unreadable")
+            except OSError as e:
+                raise CacheGetFailure(evaluatable, options, self) from e
+        if f in ("miss", "fail-get"):
+            raise CacheGetFailure(evaluatable, options, self)
+        if f == "forget":
+            self._evict(evaluatable.fingerprint(options))
+        return super().get(evaluatable, options)
+
+    def set(self, evaluatable, options, value):
+        f = self._fault("set")
+        if f in ("fail-readback", "forget"):
+            self._evict(evaluatable.fingerprint(options))
+            return
+        super().set(evaluatable, options, value)
+        self.index.add(evaluatable.fingerprint(options))
+
+    def exists(self, evaluatable, options):
+        f = self._fault("exists")
+        if f == "miss":
+            return False
+        if f == "lie-exists":
+            return True
+        fp = evaluatable.fingerprint(options)
+        if f == "forget":
+            self._evict(fp)
+            return False
+        return fp in self.index
+
+    def __repr__(self):
+        return f"FaultyMemoryCache({self.name})"
+
+
 # ---------------------------------------------------------------- stubs
-def _body_impl(name, selector=False):
+def _body_impl(name, selector=False, mutates=()):
     if selector:
 
         def impl(**kw):
@@ -208,7 +267,14 @@ def _body_impl(name, selector=False):
 
         def impl(**kw):
             rt.call("body", name, **kw)
-            return rt.body_value(name, kw)
+            value = rt.body_value(name, kw)
+            for a in mutates:
+                # a body that works on its argument IN PLACE (sorts a list, fills in a section), as user code does
+                if isinstance(kw.get(a), list):
+                    kw[a].append("§mutated")
+                elif isinstance(kw.get(a), dict):
+                    kw[a]["§mutated"] = 1
+            return value
 
     return impl
 
@@ -488,7 +554,7 @@ class Program:
     def _b_dataset(self, n):
         name = n["name"]
         argnames = list(n.get("args", {}))
-        fn = make_fn(name, argnames, [self.ref(n["args"][a]) for a in argnames], _body_impl(name, n.get("body") == "selector"))
+        fn = make_fn(name, argnames, [self.ref(n["args"][a]) for a in argnames], _body_impl(name, n.get("body") == "selector", tuple(n.get("mutates", ()))))
         kw = {}
         disp = n.get("dispatch")
         if disp is not None:
@@ -523,6 +589,8 @@ class Program:
             kw["cache"] = self.caches[n["id"]] = FaultyCache(name)
         elif ck == "faulty_ne":
             kw["cache"] = self.caches[n["id"]] = FaultyCacheDefaultExists(name)
+        elif ck == "faulty_mc":
+            kw["cache"] = self.caches[n["id"]] = FaultyMemoryCache(name)
         ds = factory(fn, **kw)
         for alias, impl in n.get("overloads", []):
             self.register(ds, alias, impl, cache_kind=ck)
@@ -549,6 +617,8 @@ class Program:
             new.set_cache(FaultyCache(impl["fn"]))
         elif cache_kind == "faulty_ne":
             new.set_cache(FaultyCacheDefaultExists(impl["fn"]))
+        elif cache_kind == "faulty_mc":
+            new.set_cache(FaultyMemoryCache(impl["fn"]))
         elif cache_kind == "nocache":
             new.set_cache(labrea.cache.NoCache())
         if impl.get("id"):
